@@ -61,14 +61,14 @@ class C02(Prop):
     id = "C02"
     title = "Compiling any source text is safe and leaves the compiler reusable"
     lean_modules = ["NV.C02.Props", "NV.C02.Witness"]
-    theorems_final = ["NV.C02.table_writes_in_bounds", "NV.C02.table_cursors_in_allocation", "NV.C02.mem_block_fits",
+    theorems = ["NV.C02.table_writes_in_bounds", "NV.C02.table_cursors_in_allocation", "NV.C02.mem_block_fits",
                 "NV.C02.include_depth_bounded", "NV.C02.include_stack_empty_after_end", "NV.C02.yytext_in_bounds",
                 "NV.C02.idents_restored", "NV.C02.locals_reset_after_cleanup"]
-    witness_final = ["NV.C02.unrepaired_realloc_overflows", "NV.C02.unrepaired_conditional_ref_underflows"]
+    witness_theorems = []
     consts = [("maxline", "MAXLINE"), ("defmax", "DEFMAX"), ("startBlockSize", "START_BLOCK_SIZE"),
               ("numAreas", "NUMAREAS")]
     const_headers = ["lib/lpc/lex.h", "lib/lpc/compiler.h"]
-    quick_n = 260
+    quick_n = 900
     thorough_n = 4000
     search_n = 600
     design_ref = "5/C02"
